@@ -6,7 +6,9 @@ is never executed by the package.  This translator extracts that function *as so
 `np`, `numba_bool`, `range` are free names; no imports, no attribute stores, no calls other than
 np.* / range / methods of its own locals), and returns the dedented text.  The harness executes
 that text as plain Python (`numba_bool = bool`) — a translator-made transcription, flagged as
-such in the evidence — and compares it with the Lean model `findapSeq`.
+such in the evidence — and compares it with the Lean model `findapSeqFix` (the text after repair
+4b29dcf: no size-2 special case, end rule `PV[j] = True`).  A static obligation rejects a text
+that reads, after a `for` loop, a name assigned only inside it (finding F14).
 """
 import ast
 import builtins
@@ -20,7 +22,7 @@ class Shape(Exception):
     pass
 
 
-def extract(repo):
+def extract(repo, strict=True):
     path = os.path.join(repo, "pyyeti", "cyclecount.py")
     src = open(path, encoding="utf-8").read()
     tree = ast.parse(src)
@@ -65,6 +67,22 @@ def extract(repo):
             )
             if not ok:
                 raise Shape("call outside the transcription grammar: %s" % ast.dump(f)[:80])
+    # static obligation (repair 4b29dcf, finding F14): nothing that is assigned only inside a `for` body may be read after that
+    # loop - the loop may not run (`range(i + 1, y.size)` is empty when the first significant change is the last sample)
+    sure = set(args)
+    for k, st in enumerate(numba_fn.body if strict else []):
+        if isinstance(st, ast.For):
+            inside = {n.id for n in ast.walk(st) if isinstance(n, ast.Name) and isinstance(n.ctx, ast.Store)}
+            maybe = inside - sure
+            for later in numba_fn.body[k + 1:]:
+                for n in ast.walk(later):
+                    if isinstance(n, ast.Name) and isinstance(n.ctx, ast.Load) and n.id in maybe:
+                        raise Shape("`%s` is assigned only inside the `for` loop at line %d and read after it (line %d): unbound "
+                                    "when the loop does not run" % (n.id, st.lineno, n.lineno))
+        elif isinstance(st, (ast.Assign, ast.AugAssign, ast.AnnAssign)):
+            for n in ast.walk(st):
+                if isinstance(n, ast.Name) and isinstance(n.ctx, ast.Store):
+                    sure.add(n.id)
     text = textwrap.dedent(ast.get_source_segment(src, numba_fn, padded=True))
     return text, {"lineno": numba_fn.lineno, "end_lineno": numba_fn.end_lineno,
                   "default_lineno": default_fn.lineno}
@@ -74,7 +92,7 @@ def load(repo):
     """Return the numba variant as a plain-Python callable (transcription)."""
     import numpy as np
 
-    text, info = extract(repo)
+    text, info = extract(repo, strict=False)   # the static obligation is translate()'s; the text still runs
     ns = {"np": np, "numba_bool": bool, "range": builtins.range, "__builtins__": {}}
     exec(compile(text, "<cyclecount.findap numba variant, lines %d-%d>" % (info["lineno"], info["end_lineno"]), "exec"), ns)
     return ns["findap"], info
